@@ -1823,11 +1823,15 @@ func (p *proxy) forwardFetch(ctx context.Context, header *protocol.RequestHeader
 			for _, topic := range r.subResp.Topics {
 				for _, part := range topic.Partitions {
 					if part.ErrorCode == protocol.NOT_LEADER_OR_FOLLOWER {
+						// The retry set is keyed the way the request is keyed. A name
+						// that only resolves now (the topic cache was cold when the
+						// request arrived) is used for invalidation alone; keying by
+						// it would drop the partition from the retry and the reply.
 						topicName := topic.Topic
+						key := fetchTopicKey(topicName, topic.TopicID)
 						if topicName == "" {
 							topicName = p.resolveTopicID(ctx, topic.TopicID)
 						}
-						key := fetchTopicKey(topicName, topic.TopicID)
 						if failedPartitions == nil {
 							failedPartitions = make(map[string]map[int32]bool)
 						}
